@@ -55,6 +55,7 @@ type Exec struct {
 	heapified map[types.Object]bool
 	usedSpecs map[string]bool
 	heapTrace map[string]bool
+	specOrigArgs []Val
 	trusted   map[string]bool
 	ord       map[string]int
 	frames    []*frame
@@ -593,6 +594,9 @@ func (x *Exec) recordWrite(st *State, hn string, key *Term, newCell, oldCell *Te
 		}
 		lab := fmt.Sprintf("%sw%d", sc.label, x.nextOrd("frame:"+sc.label))
 		x.oblige(st, "frame", lab, goal, pos, sc.src)
+		// asserted, hence assumed from here on: in particular the store
+		// did not touch a cell the enclosing loop promises to preserve
+		st.assume(goal)
 	}
 }
 
